@@ -734,7 +734,8 @@ def r2(ctx, regs: List[Reg], tmpl):
                 p = ap(c.args[0])
                 ok = False
                 for e, pol in facts(c, f.node):
-                    if pol and isinstance(e, ast.Compare) and len(e.ops) == 1 and isinstance(e.ops[0], ast.In) \
+                    if isinstance(e, ast.Compare) and len(e.ops) == 1 and \
+                            (isinstance(e.ops[0], ast.In) and pol or isinstance(e.ops[0], ast.NotIn) and not pol) \
                             and ap(e.left) == p and eattr in {ap(x) for x in ast.walk(e.comparators[0])
                                                               if isinstance(x, ast.Attribute)}:
                         ok = True
@@ -760,6 +761,8 @@ def bad_enc(s):
     return datetime.datetime.fromisoformat(s).timestamp()
 def bad_mk(t):
     return time.mktime(t)
+def bad_offset(t):
+    return t + time.timezone
 def good(x, d):
     a = datetime.datetime.fromtimestamp(x, tz=datetime.timezone.utc)
     if d.tzinfo is None:
@@ -787,7 +790,7 @@ def r3(ctx):
     probe = tzlint.tz_sites(_ProbeRepo(), ["<probe>"])
     bad = sorted(k for _, _, k, ok, _ in probe if not ok)
     good = [k for _, _, k, ok, _ in probe if ok]
-    ctx.require(bad == ["local-time-api", "naive-fromtimestamp", "naive-timestamp"] and len(good) == 3,
+    ctx.require(bad == ["local-time-api", "local-time-api", "naive-fromtimestamp", "naive-timestamp"] and len(good) == 3,
                 f"tzlint probe mismatch: flagged {bad}, accepted {good}")
     rels = [r for r in TZ_MODULES if r in repo.modules]
     ctx.require(TEMPLATES in rels and SERMOD in rels, "codec modules vanished")
@@ -797,7 +800,7 @@ def r3(ctx):
         mod = fi.module if fi is not None else None
         where = f"{mod.rel}:{node.lineno}" if mod is not None else f"?:{node.lineno}"
         ctx.ob("C09.R3", tzlint.site_key(fi, node, kind), ok, where, msg)
-    ctx.ob("C09.R3", "tzlint probe (3 flagged idioms, 3 accepted idioms) recognised", True, "hipposa/rules/c09.py")
+    ctx.ob("C09.R3", "tzlint probe (4 flagged idioms, 3 accepted idioms) recognised", True, "hipposa/rules/c09.py")
     ctx.stats["C09.R3.date api sites"] = n
 
 
